@@ -1,9 +1,11 @@
 package props
 
 import (
+	"encoding/json"
 	"fmt"
 	"math/rand/v2"
 	"os"
+	"os/exec"
 	"sort"
 	"strconv"
 	"strings"
@@ -216,7 +218,83 @@ func c20Arith(name, form string) (*ra.Expr, string) {
 	panic("c20: arith form " + form)
 }
 
+// C20EnvironProbe is the body of the "environ-probe" child process: it prints
+// what a fresh ExecEnv holds right after it has imported the environment the
+// parent chose (entries a process can only inherit, such as "=x" or a name
+// without "=", cannot be produced with os.Setenv).
+func C20EnvironProbe() {
+	env := interp.NewExecEnv("sh", "p1")
+	var out struct {
+		Vars     [][2]string `json:"vars"`
+		EmptySet bool        `json:"empty_set"`
+	}
+	env.Walk(func(v interp.Var) { out.Vars = append(out.Vars, [2]string{v.Name, v.Value}) })
+	_, out.EmptySet = env.Get("")
+	sort.Slice(out.Vars, func(i, j int) bool { return out.Vars[i][0] < out.Vars[j][0] })
+	json.NewEncoder(os.Stdout).Encode(out)
+}
+
+// c20EnvironRaw runs the probe under a hand-made environment block.
+func c20EnvironRaw(c *core.Ctx, cs c20Case) {
+	exe, err := os.Executable()
+	if err != nil {
+		c.Skip("no executable path")
+		return
+	}
+	cmd := exec.Command(exe, "environ-probe")
+	cmd.Env = cs.Environ
+	raw, err := cmd.Output()
+	var out struct {
+		Vars     [][2]string `json:"vars"`
+		EmptySet bool        `json:"empty_set"`
+	}
+	if err != nil || json.Unmarshal(raw, &out) != nil {
+		c.Skip(fmt.Sprintf("probe failed: %v", err))
+		return
+	}
+	c.Eval(1)
+	key := fmt.Sprintf("inherited environment %q", cs.Environ)
+	got := map[string]string{}
+	for _, kv := range out.Vars {
+		got[kv[0]] = kv[1]
+		switch {
+		case kv[0] == "":
+			c.Violation("environ", key, "every variable has a name (an entry that starts with = names none)", fmt.Sprintf("Walk reports a variable with the empty name, value %q", kv[1]), "")
+			return
+		case isSpecial(kv[0]) || isPositional(kv[0]):
+			c.Violation("environ", key, "special and positional parameters reflect Args / Opts only", fmt.Sprintf("Walk reports %q=%q right after NewExecEnv", kv[0], kv[1]), "")
+			return
+		}
+	}
+	if out.EmptySet {
+		c.Violation("environ", key, `Get("") reports unset`, "set", "")
+		return
+	}
+	// well-formed entries whose name occurs once are imported as they are
+	count := map[string]int{}
+	for _, kv := range cs.Environ {
+		if k, _, ok := strings.Cut(kv, "="); ok {
+			count[k]++
+		}
+	}
+	for _, kv := range cs.Environ {
+		k, v, ok := strings.Cut(kv, "=")
+		if !ok || k == "" || count[k] != 1 || isSpecial(k) || isPositional(k) || k == "IFS" {
+			continue
+		}
+		if g, present := got[k]; !present || g != v {
+			c.Violation("environ", key, fmt.Sprintf("%s=%q imported", k, v), fmt.Sprintf("%q (present=%v)", g, present), "")
+			return
+		}
+	}
+	c.Distinct("environ-raw", fmt.Sprint(len(out.Vars)))
+}
+
 func c20Exec(c *core.Ctx, cs c20Case) {
+	if cs.Kind == "environ-raw" {
+		c20EnvironRaw(c, cs)
+		return
+	}
 	for _, kv := range cs.Environ {
 		k, v, _ := strings.Cut(kv, "=")
 		os.Setenv(k, v)
@@ -463,6 +541,10 @@ func c20Gen(c *core.Ctx) {
 		for k := 0; k < len(alpha); k++ {
 			core.Do(c, c20Case{Environ: e, Ops: []c20Op{alpha[k], alpha[(k+i+1)%len(alpha)]}, Kind: "environ"}, c20Exec)
 		}
+	}
+	// environment blocks only a parent process can hand over (a child process is the probe)
+	for _, e := range [][]string{{"=x"}, {"=x", "A=1"}, {"novalue", "A=1"}, {"=x=y", "B=2"}, {"=", "C=3"}, {"A=1", "A=2", "D=4"}, {"==", "E=a=b"}, {"1=one", "=x", "@=y", "F=f"}, {"名=v", "=名"}, {}} {
+		core.Do(c, c20Case{Environ: e, Kind: "environ-raw"}, c20Exec)
 	}
 	maxLen := c.Pick(3, 4)
 	for n := 1; n <= maxLen; n++ {
